@@ -146,15 +146,15 @@ Qed.
 
 Lemma ns_notify_delete fuel : forall n s, nodes_same s (notify_delete B fuel n s).
 Proof.
-  induction fuel as [|f IH]; intros n s; cbn; [split; [reflexivity | intros; reflexivity]|].
-  eapply nodes_same_trans; [apply ns_set_node; reflexivity|].
+  induction fuel as [|f IH]; intros n s; cbn [notify_delete]; [split; [reflexivity | intros; reflexivity]|].
+  eapply nodes_same_trans; [apply (ns_set_node n (pn_with_deleted (get_node B s n))); reflexivity|].
   apply (ns_fold (fun c st => notify_delete B f (snd c) st)). intros a s0. apply IH.
 Qed.
 
 Lemma ns_rwn_none n nm m : forall held s, nodes_same s (snd (rwn_loop B n nm None m held s)).
 Proof.
-  induction m as [|r m IH]; intros held s; cbn; [apply nodes_same_refl|].
-  eapply nodes_same_trans; [apply ns_set_node; reflexivity | apply IH].
+  induction m as [|r m IH]; intros held s; cbn [rwn_loop]; [apply nodes_same_refl|]. cbv zeta.
+  eapply nodes_same_trans; [|apply IH]. apply ns_set_node. reflexivity.
 Qed.
 
 Lemma held_rwn_none n nm m : forall held s, fst (rwn_loop B n nm None m held s) = held.
@@ -179,7 +179,7 @@ Proof.
   destruct lp as [held s1]. cbn [fst snd] in H1. destruct H1 as (-> & (L1 & N1)). cbn [release_all].
   set (s2 := set_node B n _ s1).
   assert (E2 : pn_nodes (gnode s2 n) = adel Nat.eqb nm (pn_nodes (gnode s1 n))).
-  { unfold s2. rewrite gnode_set_nodes, Nat.eqb_refl. cbn.
+  { unfold s2. rewrite gnode_set_nodes, Nat.eqb_refl. cbn [andb].
     destruct (Nat.ltb_spec n (length (s_nodes B s1))); [reflexivity | lia]. }
   destruct (alookup Nat.eqb nm (pn_nodes (get_node B s1 n))) as [c|].
   - destruct (ns_notify_delete (node_fuel B s2) c s2) as (_ & N3). rewrite N3, E2. apply alookup_adel_same.
